@@ -294,6 +294,8 @@ package stree
 //@   loop 1: invariant [C01] made: 0 <= it1 && len(nodes) == len(keys) && fresh(nodes) && unchanged(elems(keys)) && tree != nil && fresh(tree) && tree.root == nil && tree.compare == compare && tree.size == 0 && tree.max == 0
 //@   loop 1: invariant [C01] nodes: forall k int :: {nodes[k]} 0 <= k && k < it1 ==> nodes[k] != nil && fresh(nodes[k]) && nodes[k].X == keys[k]
 //@   loop 1: invariant [C01] apart: forall a int, b int :: {nodes[a], nodes[b]} 0 <= a && a < b && b < it1 ==> nodes[a] != nodes[b]
+//@   at before "if len(keys) != 0": ghost tree.elems = emptyset(tree.elems)
+//@   at before "if len(keys) != 0": ghost from = lambda k int :: 0
 //@   at loop 1 exit: ghost n0 = snap(nodes)
 //@   at after "slices.SortFunc(nodes, func(a, b *node[T]) int { return compare(a.X, b.X) })": ghost sp = SortFunc_p
 //@   at after "slices.SortFunc(nodes, func(a, b *node[T]) int { return compare(a.X, b.X) })": ghost sq = SortFunc_q
@@ -322,6 +324,7 @@ package stree
 //@   requires [C01] sorted: forall a int, b int :: {nodes[a], nodes[b]} 0 <= a && a < b && b < len(nodes) ==> rank(cmp, nodes[a].X) < rank(cmp, nodes[b].X)
 //@   ensures  [C01] nil: (len(nodes) == 0) == (result == nil)
 //@   ensures  [C01] shape: treeOK(result, cmp) && cntOf(result) == len(nodes)
+//@   ensures  [C01] card: result != nil ==> card(result.keys) == len(nodes)
 //@   ensures  [C01] members: forall k int :: {nodes[k]} 0 <= k && k < len(nodes) ==> inD(result, nodes[k]) && inK(result, rank(cmp, nodes[k].X)) && result.rep[rank(cmp, nodes[k].X)] == nodes[k].X
 //@   ensures  [C01] onlyNodes: forall y ref :: {inD(result, y)} inD(result, y) ==> 0 <= ni[y] && ni[y] < len(nodes) && nodes[ni[y]] == y
 //@   ensures  [C01] onlyKeys: forall k int :: {inK(result, k)} inK(result, k) ==> 0 <= ki[k] && ki[k] < len(nodes) && rank(cmp, nodes[ki[k]].X) == k
@@ -351,6 +354,7 @@ package stree
 //@   at after "root.right = extract(nodes[mid+1:])": ghost root.keys = lambda k int :: k == rank(cmp, root.X) || inK(root.left, k) || inK(root.right, k)
 //@   at after "root.right = extract(nodes[mid+1:])": ghost root.desc = lambda y int :: y == root || inD(root.left, y) || inD(root.right, y)
 //@   at after "root.right = extract(nodes[mid+1:])": ghost root.cnt = 1 + cntOf(root.left) + cntOf(root.right)
+//@   at after "root.right = extract(nodes[mid+1:])": apply cardSplit(root.keys, ite(root.left == nil, emptyset(root.keys), root.left.keys), ite(root.right == nil, emptyset(root.keys), root.right.keys), rank(cmp, root.X))
 //@   at after "root.right = extract(nodes[mid+1:])": ghost root.rep = lambda k int :: ite(k == rank(cmp, root.X), root.X, ite(inK(root.left, k), root.left.rep[k], root.right.rep[k]))
 //@   at after "root.right = extract(nodes[mid+1:])": ghost ni = lambda y int :: ite(y == root, mid, ite(inD(root.left, y), niL[y], mid + 1 + niR[y]))
 //@   at after "root.right = extract(nodes[mid+1:])": ghost ki = lambda k int :: ite(k == rank(cmp, root.X), mid, ite(inK(root.left, k), kiL[k], mid + 1 + kiR[k]))
